@@ -1010,6 +1010,49 @@ class Sim:
                     st, eq = call(lambda: obj == build(m3))
                     if st == "exc" or eq is not False:
                         self.fail("model:eq-true-for-different-container", what="one more atom", got=eq if st == "ok" else exc_name(eq), **where)
+            if self.step % 5 == 1:
+                # a container that differs in exactly one other respect must be unequal too, whichever side it stands
+                # on: box present / absent, one box entry, one annotation value, bonds present / absent, one bond
+                variants = []
+                mb = m.copy()
+                if m.box is None:
+                    mb.box = np.eye(3, dtype=np.float32) * 10 if m.kind == "array" else np.stack([np.eye(3, dtype=np.float32) * 10] * m.m) if m.m else None
+                    if mb.box is not None:
+                        variants.append(("box present instead of absent", mb))
+                else:
+                    mb.box = None
+                    variants.append(("box absent instead of present", mb))
+                    if m.box.size:
+                        mc = m.copy()
+                        mc.box.reshape(-1)[0] += 1.0
+                        variants.append(("one box entry", mc))
+                if m.n >= 1:
+                    ma = m.copy()
+                    ma.ann["res_id"] = list(ma.ann["res_id"])
+                    ma.ann["res_id"][-1] = ma.ann["res_id"][-1] + 1
+                    variants.append(("one annotation value", ma))
+                mo = m.copy()
+                if m.bonds is None:
+                    mo.bonds = {}
+                    variants.append(("empty bond list instead of none", mo))
+                else:
+                    mo.bonds = None
+                    variants.append(("no bond list instead of one", mo))
+                    if m.n >= 2 and (0, m.n - 1) not in m.bonds:
+                        mp = m.copy()
+                        mp.bonds[(0, m.n - 1)] = 1
+                        variants.append(("one more bond", mp))
+                for what, mv in variants:
+                    other = build(mv)
+                    for side, fn in (("left", lambda: obj == other), ("right", lambda: other == obj)):
+                        st, eq = call(fn)
+                        if st == "exc" or eq is not False:
+                            self.fail("model:eq-true-for-different-container", what=what, checked_object_on=side,
+                                      got=eq if st == "ok" else exc_name(eq), **where)
+                    st, ne = call(lambda: obj != other)
+                    if st == "exc" or ne is not True:
+                        self.fail("model:ne-false-for-different-container", what=what, got=ne if st == "ok" else exc_name(ne), **where)
+                self.res.stats["probe:eq-negative-variants"] += 1
         if n == 0 or (m.kind == "stack" and m.m == 0):
             self.res.stats["probe:empty-container"] += 1
 
